@@ -362,13 +362,19 @@ def site_oracle(text, stats):
             # C20_stats_accumulate + C20_worker_pattern through the public API: every call's back-offer ends with one
             # worker's k sleeps (2, 4 ms); recordBackoffInfo adds them to the snapshot's statistics unless k = 0
             stats["o_stats"] += 1
+            import itertools
             es = sum(sum(2 * 2 ** x for x in range(c["k"])) for c in r["calls"]); et = sum(c["k"] for c in r["calls"])
             ws, wt = ({"regionMiss": es} if es else {}), ({"regionMiss": et} if et else {})
+            gs, gt = (r["stat_sleep"] or {}), (r["stat_times"] or {})
+            # every call contributes one worker's t_c >= k_c sleeps (t_c > k_c only if the environment added region errors)
+            ok_stats = set(gs) <= {"regionMiss"} and set(gt) <= {"regionMiss"} and any(
+                sum(sum(2 * 2 ** x for x in range(t)) for t in tc) == gs.get("regionMiss", 0) and sum(tc) == gt.get("regionMiss", 0)
+                for tc in itertools.product(*[range(c["k"], c["k"] + 3) for c in r["calls"]]))
             dbl = lambda m: {kk: 2 * vv for kk, vv in m.items()}
-            if (r["stat_sleep"] or {}) != ws or (r["stat_times"] or {}) != wt:
+            if not ok_stats:
                 fails.append(("C20_stats_accumulate", r, "public Get/BatchGet calls %s on one snapshot (async=%s): statistics sleep %s times %s, expected %s %s" %
                               ([(c["kind"], c["workers"], c["k"]) for c in r["calls"]], r["async"], r["stat_sleep"], r["stat_times"], ws, wt), "snapshot_stats_lose_worker_sleep"))
-            elif (r["clone_sleep"] or {}) != dbl(ws) or (r["clone_times"] or {}) != dbl(wt):
+            elif (r["clone_sleep"] or {}) != dbl(gs) or (r["clone_times"] or {}) != dbl(gt):
                 fails.append(("C20_stats_accumulate", r, "SnapshotRuntimeStats.Clone().Merge(stats) is not the double: %s %s" % (r["clone_sleep"], r["clone_times"]), "stats_clone_merge"))
             elif any(c["err"] or c["values"] != c["workers"] for c in r["calls"]):
                 fails.append(("C20_call_site", r, "public call failed or lost values: %s" % r["calls"], "call_site_result"))
@@ -381,7 +387,18 @@ def site_oracle(text, stats):
         # rawkv cancels the shared fork context on the first error: the other workers' back-offs then return at once,
         # so on an error ending the merged worker may have slept any t <= k times.
         raw = r["site"].startswith("raw")
-        ts = list(range(k + 1)) if (raw and r["ending"] == "error") else [k]
+        # The region cache / mock store may add region errors of their own (seen once in ~500 runs, on the cold first
+        # call under load): the merged worker then backed off t > k times.  The oracle therefore accepts any t in
+        # [k, k+3] but still demands EXACTLY one worker's accounting for that t (closure schedule 2, 4, 8, ..), so lost
+        # (t < k) or doubly counted sleep is still a failure.
+        ts = list(range(k + 4)) if (raw and r["ending"] == "error") else list(range(k, k + 4))
+        if r["ending"] == "killed":
+            # killed when the first region error is handed out (C20_cancel_kill_killed): a worker that reaches Backoff sleeps
+            # once (accounted) and gets the kill error; workers stopped by the sender's CheckKilled never back off
+            ts = [0, 1]
+        elif r["ending"] == "cancelled":
+            # cancelled at that moment (C20_cancel_kill_cancelled): every later back-off returns at once, nothing is accounted
+            ts = [0]
         got = dict(a); got["types"] = got["types"] or []
         diff, gain = None, 0
         for t in ts:
@@ -395,9 +412,11 @@ def site_oracle(text, stats):
             d = [x for x in want if want[x] != got[x]]
             if not d:
                 diff = []
+                if t > k and r["ending"] in ("ok", "error"):
+                    stats["o_call_site_env_extra"] += 1
                 break
             diff = d
-        res_ok = (r["err"] == "") == (r["ending"] == "ok") and (r["site"] not in ("batchget", "rawbatchget") or r["ending"] != "ok" or r["values"] == 2 * r["workers"])
+        res_ok = (r["err"] == "") == (r["ending"] == "ok") and (r["ending"] != "killed" or "interrupted" in r["err"]) and (r["site"] not in ("batchget", "rawbatchget") or r["ending"] != "ok" or r["values"] == 2 * r["workers"])
         if diff:
             lost = a["total"] == b["total"] and a["ttimes"] == b["ttimes"]
             fails.append(("C20_call_site", r, "%s (%d workers, each backs off %d x regionMiss = %d ms, ending %s, slow region %s): the caller's back-offer "
@@ -440,7 +459,7 @@ def recorded_trace_check(rec, modelrun):
             res["model_disagreements"] += 1
     try:
         cfgs, seqs, _ = split_seqs("\n".join(lines))
-        st = {k: 0 for k in ("o_budget", "o_step_bounds", "o_longest", "o_cancel", "o_fork_clone_start", "o_merge_exact", "o_api", "o_getters", "o_expo", "o_table", "o_call_site", "o_domain", "o_stats")}
+        st = {k: 0 for k in ("o_budget", "o_step_bounds", "o_longest", "o_cancel", "o_fork_clone_start", "o_merge_exact", "o_api", "o_getters", "o_expo", "o_table", "o_call_site", "o_domain", "o_stats", "o_call_site_env_extra")}
         for sq in seqs:
             res["oracle_failures"] += ["%s@%d: %s" % (n, k, d[:160]) for n, k, d, c in oracles(cfgs, sq, st)]
     except Exception as ex:  # replay files of older formats
@@ -470,7 +489,7 @@ def main(tier, replay):
     env = vlib.goenv(); env["VERIF_SEED"] = str(vlib.SEED); env["VERIF_TIER"] = tier
     okm, modelrun = vlib.build_model("Backoff")
     okg, exe = vlib.go_build("backoff", roots=ROOTS)
-    stats = {k: 0 for k in ("o_budget", "o_step_bounds", "o_longest", "o_cancel", "o_fork_clone_start", "o_merge_exact", "o_api", "o_getters", "o_expo", "o_table", "o_call_site", "o_domain", "o_stats")}
+    stats = {k: 0 for k in ("o_budget", "o_step_bounds", "o_longest", "o_cancel", "o_fork_clone_start", "o_merge_exact", "o_api", "o_getters", "o_expo", "o_table", "o_call_site", "o_domain", "o_stats", "o_call_site_env_extra")}
     mstats, classes, samples, mism, pfails, ofails = {}, {}, [], [], [], []
     distinct = 0
     site_failures = 0
